@@ -129,7 +129,12 @@ def run(prog, rep, tier='quick'):
                     why = 'real, scale-free, shape (NFFT, k)'
                 if method == 'adapt':
                     # convergence test of the adaptive iteration: previous and new estimate are distinct buffers
-                    wl = [n for n in ast.walk(f.node) if isinstance(n, ast.While)]
+                    # the iteration may sit in pmtm itself or in a private helper it calls
+                    fnodes = [f.node]
+                    for qn in sorted(set(itp.trace)):
+                        if qn.startswith('mtm.') and qn != f.qname and qn.count('.') == 1 and qn.split('.')[1] in prog.modules['mtm'].funcs:
+                            fnodes.append(prog.modules['mtm'].funcs[qn.split('.')[1]])
+                    wl = [n for fn_ in fnodes for n in ast.walk(fn_) if isinstance(n, ast.While)]
                     subs = [b for w_ in wl for b in ast.walk(w_.test) if isinstance(b, ast.BinOp) and isinstance(b.op, ast.Sub)]
                     ids = set((normalise(b), b.lineno) for b in subs)
                     same = [e_ for e_ in itp.events if e_[0] == 'self-diff' and (normalise(e_[1]), e_[1].lineno) in ids]
